@@ -19,13 +19,37 @@ def _encode_stream(encoding):
     Encoding errors are signalled with on_error.
     '''
     def _encode(source):
-        def factory(scheduler):
-            encoder = codecs.getincrementalencoder(encoding)()
-            return rx.concat(
-                source.pipe(ops.map(encoder.encode)),
-                rx.defer(lambda _: rx.just(encoder.encode('', final=True))),
+        def on_subscribe(observer, scheduler):
+            try:
+                encoder = codecs.getincrementalencoder(encoding)()
+            except Exception as e:  # pylint: disable=broad-except
+                observer.on_error(e)
+                return None
+
+            def on_next(i):
+                try:
+                    data = encoder.encode(i)
+                except Exception as e:  # pylint: disable=broad-except
+                    observer.on_error(e)
+                else:
+                    observer.on_next(data)
+
+            def on_completed():
+                try:
+                    data = encoder.encode('', final=True)
+                except Exception as e:  # pylint: disable=broad-except
+                    observer.on_error(e)
+                else:
+                    observer.on_next(data)
+                    observer.on_completed()
+
+            return source.subscribe(
+                on_next=on_next,
+                on_error=observer.on_error,
+                on_completed=on_completed,
+                scheduler=scheduler,
             )
-        return rx.defer(factory)
+        return rx.create(on_subscribe)
 
     return _encode
 
